@@ -37,6 +37,10 @@ def u_take(ctx, index):
     for l, f in take_post(old, h.per_msg, r.term, h.queue.term):
       ctx.check('C07/takeSomeFromQueue/' + l, f)
       ctx.check('C15/takeSomeFromQueue/' + l, f)
+  # frame (what the call-site contract take_spec assumes): nothing but the queue is touched -- in
+  # particular queueEmpty is not fired here, before the batch has been written
+  ctx.check('C07/takeSomeFromQueue/touches_only_the_queue',
+            z3.BoolVal(not h.log.events and not h.queueEmpty.fired_with and h.factory.fields['queueEmpty'] is h.queueEmpty))
 
 
 def u_enqueue(ctx, index):
@@ -169,6 +173,11 @@ def u_proto_send_queued(ctx, index):
   ctx.assume(relay_bp_inv(h))      # invariant: assumed before, proved after
   h.protocol.cls = index.cls(PICKLE_P)
   h.ip.specs[FACTORY + '.takeSomeFromQueue'] = take_spec(h)
+  # an orderly stop may be pending (disconnect() chained stopConnecting onto queueEmpty): whatever
+  # this send does, the connection may only be closed after the batch it took has been written
+  stop_pending = ctx.choose(2, 'orderly stop pending') == 1
+  if stop_pending:
+    h.queueEmpty.callbacks.append((Builtin('stop', lambda ip2, a, k: ip2.call(h.bm('stopConnecting'), [])), None))
   old = h.queue.term
   n0 = z3.Length(old)
   paused = as_b(h.paused)
@@ -185,6 +194,17 @@ def u_proto_send_queued(ctx, index):
   if raised is not None:
     return
   sent = h.sent_strings
+  if stop_pending:
+    names = [e[0] for e in h.log.events]
+    if 'transport.loseConnection' in names and h.log.of('Reconnecting.clientConnectionLost') == [] :
+      ctx.cover('sendQueued/stop_closes')
+      first_close = names.index('transport.loseConnection')
+      writes = [i for i, n in enumerate(names) if n == 'transport.write']
+      quality_reset = any(n == 'instrumentation.increment' and e[1] and e[1][0] == 'slowConnectionReset' and len(e[1]) == 1
+                          for n, e in zip(names, h.log.events))
+      if not quality_reset:
+        ctx.check('C07/sendQueued/stop_closes_only_after_the_batch_is_written',
+                  z3.And(h.queue.length() == 0, z3.BoolVal(bool(sent) and all(w < first_close for w in writes))))
   if not sent:
     ctx.cover('sendQueued/idle')
     ctx.check('C07/sendQueued/nothing_written_only_if_paused_or_empty', z3.Or(paused, n0 == 0))
